@@ -297,7 +297,7 @@ func main() {
 }
 
 var fillers = map[string]string{
-	"SMB_STRING":          "if c.%[1]s.BufferFormat == 0 {\n\t\tc.%[1]s.SetBufferFormat(types.SMB_STRING_BUFFER_FORMAT_NULL_TERMINATED_ASCII_STRING) // the constructor leaves the format unset\n\t}\n\tc.%[1]s.Buffer = noNUL(vBytes(%[2]q, L))\n\tc.%[1]s.Length = types.USHORT(L)",
+	"SMB_STRING":          "if c.%[1]s.BufferFormat == 0 {\n\t\tc.%[1]s.SetBufferFormat(types.SMB_STRING_BUFFER_FORMAT_NULL_TERMINATED_ASCII_STRING) // the constructor leaves the format unset\n\t}\n\tc.%[1]s.Buffer = noNUL(vSpare(%[2]q, L))\n\tc.%[1]s.Length = types.USHORT(L)",
 	"OEM_STRING":          "c.%[1]s.SetString(string(noNUL(vBytes(%[2]q, L))))",
 	"FILETIME":            "c.%[1]s = types.FILETIME{DwLowDateTime: vU32(%[2]q + \".lo\"), DwHighDateTime: vU32(%[2]q + \".hi\")}",
 	"SMB_DATE":            "c.%[1]s = symDate(%[2]q)",
@@ -378,7 +378,7 @@ var _ securitymode.SecurityMode
 			tag := n + "." + f.Name
 			switch f.Kind {
 			case "unicodez":
-				fmt.Fprintf(&sb, "\tc.%s = noNUL16(vBytes(%q, L&^1))\n", f.Name, tag)
+				fmt.Fprintf(&sb, "\tc.%s = noNUL16(vSpare(%q, L&^1))\n", f.Name, tag)
 			case "dirlist":
 				fmt.Fprintf(&sb, "\tfor i := 0; i < L/2; i++ {\n\t\tc.%s = append(c.%s, symDirInfo(%q+string(rune('a'+i))))\n\t}\n", f.Name, f.Name, tag)
 			case "structlist":
@@ -403,13 +403,13 @@ var _ securitymode.SecurityMode
 				fmt.Fprintf(&sb, "\tc.%s.QuadPart = vU64(%q)\n", f.Name, tag)
 			case "bytes":
 				if ex, ok := fixExpr[n+"."+f.Name]; ok {
-					fmt.Fprintf(&sb, "\tc.%s = vBytes(%q, %s) // the decoder derives this length (alignment convention)\n", f.Name, tag, ex)
+					fmt.Fprintf(&sb, "\tc.%s = vSpare(%q, %s) // the decoder derives this length (alignment convention)\n", f.Name, tag, ex)
 				} else if f.FixLen >= 0 {
-					fmt.Fprintf(&sb, "\tc.%s = vBytes(%q, %d) // the decoder fixes this length (pad convention)\n", f.Name, tag, f.FixLen)
+					fmt.Fprintf(&sb, "\tc.%s = vSpare(%q, %d) // the decoder fixes this length (pad convention)\n", f.Name, tag, f.FixLen)
 				} else if ex, ok := lenExpr[f.LenBy]; ok {
-					fmt.Fprintf(&sb, "\tc.%s = vBytes(%q, %s)\n", f.Name, tag, ex)
+					fmt.Fprintf(&sb, "\tc.%s = vSpare(%q, %s)\n", f.Name, tag, ex)
 				} else {
-					fmt.Fprintf(&sb, "\tc.%s = vBytes(%q, L)\n", f.Name, tag)
+					fmt.Fprintf(&sb, "\tc.%s = vSpare(%q, L)\n", f.Name, tag)
 				}
 			case "words":
 				fmt.Fprintf(&sb, "\tfor i := 0; i < L; i++ {\n\t\tc.%s = append(c.%s, %s(vU16(%q+string(rune('a'+i)))))\n\t}\n", f.Name, f.Name, strings.TrimPrefix(f.Type, "[]"), tag)
@@ -418,7 +418,7 @@ var _ securitymode.SecurityMode
 			case "marshaler":
 				if f.MType == "SMB_STRING" && strings.Contains(f.StrFmt, "VARIABLE_BLOCK") {
 					// a counted buffer: any byte values, NUL included
-					fmt.Fprintf(&sb, "\tc.%[1]s.SetBufferFormat(types.%[3]s)\n\tc.%[1]s.Buffer = vBytes(%[2]q, L)\n\tc.%[1]s.Length = types.USHORT(L)\n", f.Name, tag, f.StrFmt)
+					fmt.Fprintf(&sb, "\tc.%[1]s.SetBufferFormat(types.%[3]s)\n\tc.%[1]s.Buffer = vSpare(%[2]q, L)\n\tc.%[1]s.Length = types.USHORT(L)\n", f.Name, tag, f.StrFmt)
 				} else if fl, ok := fillers[f.MType]; ok {
 					fmt.Fprintf(&sb, "\t"+fl+"\n", f.Name, tag)
 				}
@@ -432,6 +432,7 @@ var _ securitymode.SecurityMode
 			sb.WriteString("\twantAndX := *c.GetAndX() // the block the caller set: Marshal must emit it, not a replacement\n")
 		}
 		sb.WriteString("\traw, err := c.Marshal()\n")
+		fmt.Fprintf(&sb, "\tcheckSpares(%q)\n", n)
 		fmt.Fprintf(&sb, "\tvCheck(err == nil, \"C03/%s/marshal-ok\")\n\tif err != nil {\n\t\treturn\n\t}\n", n)
 		fmt.Fprintf(&sb, "\tparams, data, ok := splitBlocks(raw, %q)\n\tif !ok {\n\t\treturn\n\t}\n", n)
 		if c.AndX {
